@@ -1,3 +1,4 @@
 import Audit.Tool
 import Uds.Props.C13
+import Uds.Props.C15Stray
 #audit Uds.Props.C13
